@@ -203,6 +203,10 @@ class DynEngine(Engine):
         [[GIN_IMPORT], [DYN, ['import', 'top', False, None], ['bind', '', 'top.g', 'x', 1]]],
         [[DYN, ['import', 'Pkg.dynamic_registration', True, 'pdr'], ['bind', '', 'pdr.pf', 'x', 1]],
          [DYN, ['import', 'Pkg.dynamic_registration', True, None]]],
+        {'pre': [], 'sk': [True], 'calls': [[DYN, a1, ['bind', '', 'pkga.util.f', 'x', 1], ['bind', '', 'nosuch.fn', 'x', 2],
+                                             ['import', 'missing.mod', False, None], ['bind', 's1', 'pkga.util.g', 'r', [[], 'pkga.util.C']]]]},
+        {'pre': [], 'sk': [['list', ['nosuch.fn']], None], 'calls': [[DYN, a2, ['bind', '', 'u.f', 'x', 1], ['bind', '', 'nosuch.fn', 'x', 2]],
+                                                                      [DYN, a1, ['bind', '', 'pkga.util.f', 'y', 3]]]},
         {'pre': ['zeta.zf@pkga.util.C.meth'], 'calls': [[DYN, a1, ['bind', '', 'pkga.util.C.meth', 'x', 1]], [DYN, a1, ['bind', '', 'pkga.util.f', 'x', 1]]]},
         {'pre': ['zeta.zf@pkga.util.C'], 'calls': [[DYN, a1, ['bind', '', 'pkga.util.C', 'x', 1]]]},
         {'pre': ['zeta.zf@pkga.util.f'], 'calls': [[DYN, a2, ['bind', '', 'u.f', 'x', 1]], [DYN, a2, ['bind', '', 'u.g', 'x', 1]]]},
@@ -248,6 +252,19 @@ class DynEngine(Engine):
         else:
           stmts.append(['block', scope, sel])
       calls.append(stmts)
+    if rng.random() < 0.25:
+      # skip_unknown: names the file's own imports provide are KNOWN (registered on first use) and must be applied;
+      # names nobody provides are dropped when covered, imports of missing modules are dropped
+      sks = []
+      for stmts in calls:
+        sk = rng.choice([True, True, ['list', ['nosuch.fn']], ['list', ['nosuch.fn', 'nosuch2.g', 'pkga.util.f']], ['list', []], None])
+        sks.append(sk)
+        for _ in range(rng.randint(0, 2)):
+          extra = rng.choice([['bind', '', 'nosuch.fn', 'x', 1], ['block', 's1', 'nosuch2.g'], ['import', 'missing.mod', False, None],
+                              ['bind', 's1', 'nosuch.fn', 'y', 2]])
+          pos = rng.randint(1, len(stmts)) if stmts else 0
+          stmts.insert(pos, extra)
+      return {'pre': [], 'calls': calls, 'sk': sks}
     if rng.random() < 0.1:
       calls.insert(rng.randint(0, len(calls)), [GIN_IMPORT])      # a file without the feature may import gin.*
     if rng.random() < 0.08:
@@ -267,7 +284,15 @@ class DynEngine(Engine):
       return case.get('pre', []), case['calls']
     return [], case
 
+  @staticmethod
+  def sks(case):
+    """skip_unknown per call: None (omitted) | True | ['list', names]"""
+    n = len(case['calls']) if isinstance(case, dict) else len(case)
+    sk = (case.get('sk') if isinstance(case, dict) else None) or []
+    return list(sk) + [None] * (n - len(sk))
+
   def to_coq(self, case):
+    sks = self.sks(case)
     pre, case = self.norm(case)
     w = World()
     try:
@@ -293,7 +318,14 @@ class DynEngine(Engine):
         else:
           out.append(s)
       return out
-    calls = C.clist([C.clist([st(s) for s in block_expand(c)]) if c else '(@nil dstmt)' for c in case])
+    def skc(k):
+      if k is None or k is False:
+        return 'DSkFalse'
+      if k is True:
+        return 'DSkTrue'
+      return '(DSkList %s)' % C.cstrs(k[1])
+    calls = C.clist(['(%s, %s)' % (skc(k), C.clist([st(s) for s in block_expand(c)]) if c else '(@nil dstmt)')
+                     for c, k in zip(case, sks)])
     w2 = World()
     try:
       pre_c = C.clist(['{| ce_sel := %s; ce_obj := %d; ce_method := false; ce_src := None; ce_home := (%s, %s) |}' %
@@ -305,8 +337,14 @@ class DynEngine(Engine):
 
   def shrink(self, case):
     if isinstance(case, dict):
-      for c in self.shrink(case['calls']):
-        yield {'pre': case['pre'], 'calls': c}
+      sk = self.sks(case)
+      for i in range(len(case['calls'])):
+        for j in range(len(case['calls'][i])):
+          c = [list(x) for x in case['calls']]
+          del c[i][j]
+          yield dict(case, calls=c, sk=sk)
+      for i in range(len(case['calls'])):
+        yield dict(case, calls=case['calls'][:i] + case['calls'][i + 1:], sk=sk[:i] + sk[i + 1:])
       return
     for i in range(len(case)):
       for j in range(len(case[i])):
@@ -317,6 +355,7 @@ class DynEngine(Engine):
       yield case[:i] + case[i + 1:]
 
   def impl(self, case):
+    sks = self.sks(case)
     pre, case = self.norm(case)
     w = World()
     fails, tags = [], []
@@ -331,9 +370,12 @@ class DynEngine(Engine):
         else:
           gin.register(w.objs[p])
       obs = []
-      for stmts in case:
+      for stmts, sk in zip(case, sks):
         try:
-          gin.parse_config(render(stmts))
+          if sk is None:
+            gin.parse_config(render(stmts))
+          else:
+            gin.parse_config(render(stmts), skip_unknown=(True if sk is True else list(sk[1])))
           obs.append(None)
         except Exception as e:  # pylint: disable=broad-except
           obs.append(T('Err', type(e).__name__))
@@ -341,7 +383,9 @@ class DynEngine(Engine):
       for (s, q), d in cfg._CONFIG.items():  # pylint: disable=protected-access
         ps = []
         for p, v in d.items():
-          if isinstance(v, cfg.ConfigurableReference):
+          if isinstance(v, cfg._UnknownConfigurableReference):  # pylint: disable=protected-access
+            ps.append([p, 0])          # a placeholder: opaque, refers to nothing
+          elif isinstance(v, cfg.ConfigurableReference):
             ps.append([p, 0])
             refs.append([s, q, p, v.configurable.selector])
           else:
@@ -404,7 +448,7 @@ class DynEngine(Engine):
         if q in builtin:
           continue
         for p, v in d.items():
-          ok_store[(s, id(reg[q].wrapped), p)] = v if isinstance(v, int) else ('ref', id(v.configurable.wrapped))
+          ok_store[(s, id(reg[q].wrapped), p)] = v if isinstance(v, int) else ('ref', id(v.configurable.wrapped)) if hasattr(v, 'configurable') else ('placeholder', v.selector)
       any_dyn = any(st[0] == 'import' and st[1] == '__gin__.dynamic_registration' for stmts in case for st in stmts)
       if ok_store and any_dyn and all_ok:     # after a FAILED parse the recorded imports are (by design) incomplete
         g2 = C.fresh_gin()
@@ -417,8 +461,8 @@ class DynEngine(Engine):
             if q in b2:
               continue
             for p, v in d.items():
-              st2[(s, id(c2._REGISTRY[q].wrapped), p)] = v if isinstance(v, int) else ('ref', id(v.configurable.wrapped))  # pylint: disable=protected-access
-          if st2 != ok_store:
+              st2[(s, id(c2._REGISTRY[q].wrapped), p)] = v if isinstance(v, int) else ('ref', id(v.configurable.wrapped)) if hasattr(v, 'configurable') else ('placeholder', v.selector)  # pylint: disable=protected-access
+          if st2 != {k: v for k, v in ok_store.items() if not (isinstance(v, tuple) and v[0] == 'placeholder')}:   # placeholders have no literal form
             fails.append(('config-str-selectors-resolve-elsewhere', 'text %r: original %r, re-parsed %r' % (text, sorted(map(str, ok_store.items())), sorted(map(str, st2.items())))))
         except Exception as e:  # pylint: disable=broad-except
           fails.append(('config-str-does-not-parse', '%s: %s; text %r' % (type(e).__name__, str(e)[:200], text)))
@@ -455,7 +499,7 @@ class DynEngine(Engine):
             for n in ([st[4][1]] if st[0] == 'bind' and not isinstance(st[4], int) else []) + [st[2]]:
               r = findings._resolve(table, n)
               if not r:
-                valid, first_bad = False, 'NameError'
+                valid, first_bad = False, ('NameError' if not sks[ci] or sks[ci] == ['list', []] else None)
                 break
               if r[0] not in w.objs:
                 valid, first_bad = False, ('AttributeError' if r[0].rpartition('.')[0] in w.objs or r[0].rpartition('.')[0] in UNIVERSE else None)
@@ -471,6 +515,22 @@ class DynEngine(Engine):
           # therefore comes from a VALID statement
           fails.append(('valid-statement-rejected', 'call %d raised ValueError before its first invalid statement (which raises %s): %r' %
                         (ci, first_bad, render(stmts))))
+      # (6) skip_unknown never drops a binding whose target the file's own imports provide
+      for ci, stmts in enumerate(case):
+        if not sks[ci] or isinstance(obs[ci], T):
+          continue
+        table, dyn = {}, False
+        for st in stmts:
+          if st[0] == 'import':
+            if st[1] == '__gin__.dynamic_registration':
+              dyn = True
+            elif st[1] in UNIVERSE:
+              table[findings._bound(st)] = st
+          elif st[0] == 'bind' and dyn and isinstance(st[4], int):
+            r = findings._resolve(table, st[2])
+            if r and r[0] in w.objs and (st[1], id(w.objs[r[0]]), st[3]) not in ok_store:
+              fails.append(('provided-binding-dropped', 'skip_unknown=%r dropped %r although %r is provided by the text\'s own imports: %r' %
+                            (sks[ci], st[1:4], st[2], render(stmts))))
       # (5) a configured method receives its bindings when called on an instance built through the registry
       if all_ok:
         for (sc, q), d in list(cfg._CONFIG.items()):  # pylint: disable=protected-access
